@@ -14,8 +14,8 @@ PLAN = dict(
                 "signer and the verifier is still visible."),
     level_note=NOTE_BASE,
     runs=[
-        dict(name="forward", run="^(TestPropForward|TestCorpus)$", checks=(1500, 30000), shards=(1, 8), timeout=(300, 1800)),
-        dict(name="reverse", run="^TestPropReverse$", checks=(800, 15000), shards=(1, 8), timeout=(300, 1800)),
+        dict(name="forward", run="^(TestPropForward|TestCorpus)$", checks=(1500, 150000), shards=(1, 16), timeout=(300, 3600)),
+        dict(name="reverse", run="^TestPropReverse$", checks=(800, 75000), shards=(1, 16), timeout=(300, 3600)),
     ],
     require=[("forward", "headers>=256B"), ("forward", ">=24-headers"), ("forward", "headers>=64KiB"), ("forward", "extreme-date"), ("forward", "1b1"), ("reverse", "1b1")],
 )
